@@ -66,6 +66,8 @@ pub struct Stk {
     pub track_rewards: bool,
     /// when non-empty, the next amounts are these constants instead of fresh symbols
     pub fixed_amounts: std::collections::VecDeque<u128>,
+    /// the same with amounts made by the caller (e.g. the symbol of an earlier step: "undelegate all")
+    pub given_amounts: std::collections::VecDeque<Uint128>,
 }
 
 #[derive(Clone, Debug)]
@@ -158,6 +160,7 @@ impl Stk {
             steps: 0,
             track_rewards: false,
             fixed_amounts: Default::default(),
+            given_amounts: Default::default(),
         }
     }
 
@@ -297,6 +300,9 @@ impl Stk {
     // operations: execute on the real App, compare with the reference semantics
 
     fn amount_for(&mut self, name: &str, hi: u128) -> Uint128 {
+        if let Some(x) = self.given_amounts.pop_front() {
+            return x;
+        }
         if let Some(x) = self.fixed_amounts.pop_front() {
             return u(x);
         }
